@@ -77,11 +77,19 @@ func corpus(quick bool) []history {
 	pre := []refcodec.Msg{rawpeer.Tattach(0, 1, ""), rawpeer.Twalk(0, 1, 2, "d"), rawpeer.Twalk(0, 1, 3, "f")}
 	for i, a := range alpha {
 		hs = append(hs, history{fmt.Sprintf("sys-%d", i), append(append([]refcodec.Msg{}, pre...), a)})
-		if false && quick && i%3 != 0 {
-			continue
-		}
 		for j, b := range alpha {
 			hs = append(hs, history{fmt.Sprintf("sys-%d-%d", i, j), append(append([]refcodec.Msg{}, pre...), a, b)})
+		}
+	}
+	if !quick {
+		// thorough: all ordered TRIPLES over the structural core of the alphabet
+		core := []int{1, 3, 5, 8, 9, 11, 12, 13, 15, 17, 19, 26}
+		for _, i := range core {
+			for _, j := range core {
+				for _, k := range core {
+					hs = append(hs, history{fmt.Sprintf("sys-%d-%d-%d", i, j, k), append(append([]refcodec.Msg{}, pre...), alpha[i], alpha[j], alpha[k])})
+				}
+			}
 		}
 	}
 	return hs
@@ -297,7 +305,7 @@ type errnoErr uint32
 func (e errnoErr) Error() string { return fmt.Sprintf("errno %d", uint32(e)) }
 
 func run(ctx *fw.Ctx, rep *fw.Report) {
-	rep.Rule = "corpus = 10 hand-written histories (failed multi-step walks, fid replacement, create-rebind, xattr fids, rename/unlink of referenced entries, directory rename with live descendants one and two levels below, attach names, open/readdir, node creation) + every history [attach; walk d; walk f; a; b] for all ordered pairs (a,b) of a 28-request structural alphabet (quick: a third of the first requests); for EVERY backend call index k of each history and every fault in {EIO, errno 117, panic} the fault is injected at call k and the history continues, followed by follow-up requests on every bound fid, write operations in every directory and a second connection on the same paths; each case is one execution under the controlled scheduler (default schedule) so that an unreleased lock shows as a precise deadlock instead of a hang; oracle: faulted request answered Rlerror(errno) / EFAULT, every later request answered, after an error the replies agree with the reference model from the pre-fault state (Tclunk/Tremove unbound), live backend handles == needed handles, every handle closed exactly once at disconnect (after a panic instead: no later request uses a closed File or closes one twice)"
+	rep.Rule = "corpus = 10 hand-written histories (failed multi-step walks, fid replacement, create-rebind, xattr fids, rename/unlink of referenced entries, directory rename with live descendants one and two levels below, attach names, open/readdir, node creation) + every history [attach; walk d; walk f; a; b] for all ordered pairs (a,b) of a 28-request structural alphabet (thorough: also all ordered triples over 12 of them); for EVERY backend call index k of each history and every fault in {EIO, errno 117, panic} the fault is injected at call k and the history continues, followed by follow-up requests on every bound fid, write operations in every directory and a second connection on the same paths; each case is one execution under the controlled scheduler (default schedule) so that an unreleased lock shows as a precise deadlock instead of a hang; oracle: faulted request answered Rlerror(errno) / EFAULT, every later request answered, after an error the replies agree with the reference model from the pre-fault state (Tclunk/Tremove unbound), live backend handles == needed handles, every handle closed exactly once at disconnect (after a panic instead: no later request uses a closed File or closes one twice)"
 	rep.Assumptions = append(rep.Assumptions, "errors of Close and Renamed need not be reported (File contract: Close errors are ignored, Renamed cannot fail)", "after a panic the model is no longer followed and leaks are not judged (DESIGN §4.0); asserted: every later request is answered, and none is served from a File that has been closed or closes one again", "injected errors happen at call entry: the failing call itself has no effect", "default schedule only: schedule-dependent fault handling is covered by C05/C16")
 	hs := corpus(ctx.Quick())
 	rep.Info["histories"] = len(hs)
